@@ -22,7 +22,18 @@ true false null var record sealed permits yield module open requires exports ope
 type Names struct {
 	n    int
 	used map[string]bool
+	// Words (Opts.WordNames): class and method names may carry ordinary English words that the
+	// heuristics of the tool react to in other places (Contest, Latest, ...Service, getX, testX)
+	Words bool
 }
+
+// classWords are appended to a class name (after its running number, so that the file name ends in
+// the word). None makes the name end in the capitalised "Test" / "Tests" of a test file.
+var classWords = []string{"Contest", "Latest", "Protests", "Greatest", "Attest", "Contests", "Shortest", "Fastests",
+	"TestHelper", "TestsRunner", "Attestation", "Service", "Util", "Utils", "Main", "Nullable", "Todo"}
+
+// methodWords are put in front of a method name.
+var methodWords = []string{"get", "set", "is", "test", "should", "latest", "contest", "main", "check", "util"}
 
 func NewNames() *Names { return &Names{used: map[string]bool{}} }
 
@@ -77,12 +88,28 @@ func (ns *Names) Reserve(name string) { ns.used[name] = true }
 func (ns *Names) Class(t *rapid.T) string {
 	first := rapid.SampledFrom([]string{"A", "B", "K", "Order", "Repo", "Item", "Z"}).Draw(t, "classFirst")
 	n := ns.fresh(t, first, "class")
-	return strings.ToUpper(n[:1]) + n[1:]
+	n = strings.ToUpper(n[:1]) + n[1:]
+	if ns.Words && rapid.IntRange(0, 5).Draw(t, "classWord") >= 4 {
+		w := n + rapid.SampledFrom(classWords).Draw(t, "classWordText")
+		if !ns.used[w] {
+			ns.used[w] = true
+			return w
+		}
+	}
+	return n
 }
 
 func (ns *Names) Method(t *rapid.T) string {
 	first := rapid.SampledFrom([]string{"m", "run", "calc", "load", "x", "apply"}).Draw(t, "methodFirst")
-	return ns.fresh(t, first, "method")
+	n := ns.fresh(t, first, "method")
+	if ns.Words && rapid.IntRange(0, 5).Draw(t, "methodWord") >= 4 {
+		w := rapid.SampledFrom(methodWords).Draw(t, "methodWordText") + strings.ToUpper(n[:1]) + n[1:]
+		if !ns.used[w] && !javaKeywords[w] {
+			ns.used[w] = true
+			return w
+		}
+	}
+	return n
 }
 
 func (ns *Names) Var(t *rapid.T) string {
